@@ -30,9 +30,13 @@ var (
 		" Later additions: end-to-end field names resembling hop-by-hop ones (Proxy-Status, Proxy-Support, Proxy-Cache-Id, Upgrade-Hint, ...).")
 	rec2 = vh.NewRecorder("C03", "h2c", rule+
 		" Later additions: end-to-end field names resembling hop-by-hop ones (Proxy-Status, Proxy-Support, Proxy-Cache-Id, Upgrade-Hint, ...).")
+	rec3 = vh.NewRecorder("C03", "http1-wrapped-agent", rule+
+		" Here the agent runs with session tracking, websocket shim and banner injection enabled and the generated responses carry neither "+
+		"Set-Cookie nor an HTML content type: the three features have nothing to do and must be transparent (only the agent's own session "+
+		"cookie may be added).")
 )
 
-func TestMain(m *testing.M) { vh.Main(m, rec1, rec2) }
+func TestMain(m *testing.M) { vh.Main(m, rec1, rec2, rec3) }
 
 type Interim struct {
 	Status int              `json:"status"`
@@ -53,6 +57,9 @@ type RespCase struct {
 	Declared   []bool           `json:"declared,omitempty"` // per trailer: announced in a Trailer field
 	DeclJoin   bool             `json:"decl_join,omitempty"`
 	PausesMs   []int            `json:"pauses_ms,omitempty"` // before head, between writes, before trailers
+	// Wrapped: the agent runs with session tracking, websocket shim and banner enabled. For responses that carry no
+	// Set-Cookie and no HTML those features have nothing to do and must be transparent.
+	Wrapped bool `json:"agent_with_sessions_shim_banner,omitempty"`
 }
 
 var (
@@ -500,6 +507,9 @@ func compare(c *RespCase, resp *vh.RawResponse) error {
 		if lk == "date" || lk == "content-type" {
 			continue // added by the front hop's own HTTP server when the backend sent none
 		}
+		if c.Wrapped && lk == "set-cookie" && len(resp.Header[k]) == 1 && strings.HasPrefix(resp.Header[k][0], "agent-session=") {
+			continue // the agent's own session cookie (property C10)
+		}
 		return fmt.Errorf("client received field %q: %q which the backend never sent as a header (interim/trailer data leaked or invented)", k, trunc(resp.Header[k]))
 	}
 	for _, hn := range hopAbsent {
@@ -575,17 +585,42 @@ func stack1(t vh.TB) *vh.E2E {
 	return e1
 }
 
+var (
+	once3 sync.Once
+	e3    *vh.E2E
+	err3  error
+)
+
+func stack3(t vh.TB) *vh.E2E {
+	once3.Do(func() {
+		e3, err3 = vh.NewE2E([]string{"--session-cookie-name=agent-session", "--disable-ssl-for-test", "--shim-websockets", "--shim-path=shim",
+			"--inject-banner=<b>verif banner</b>"})
+	})
+	if err3 != nil {
+		t.Fatalf("INFRA: cannot start stack: %v", err3)
+	}
+	return e3
+}
+
+func runCase3(t vh.TB, c *RespCase) vh.Outcome {
+	return vh.Confirm(func(mult int) vh.Outcome { return stack3(t).Stack.Discount(runCaseOn(stack3(t), t, c, mult)) })
+}
+
 func runCase1(t vh.TB, c *RespCase) vh.Outcome {
 	return vh.Confirm(func(mult int) vh.Outcome { return stack1(t).Stack.Discount(runCase1Once(t, c, mult)) })
 }
 
-func runCase1Once(t vh.TB, c *RespCase, mult int) vh.Outcome {
-	e := stack1(t)
+func runCase1Once(t vh.TB, c *RespCase, mult int) vh.Outcome { return runCaseOn(stack1(t), t, c, mult) }
+
+func runCaseOn(e *vh.E2E, t vh.TB, c *RespCase, mult int) vh.Outcome {
 	nt, classes := classify(c)
 	o := vh.Outcome{NonTrivial: nt, Classes: classes}
 	tok := e.NewToken()
 	e.Handle(tok, func(rq *vh.RawRequest, conn net.Conn) bool { return c.serveRaw(conn) })
 	req := fmt.Sprintf("%s /c03 HTTP/1.1\r\nHost: c03.example\r\nAccept-Encoding: identity\r\n%s: %s\r\n", c.Method, vh.TokenHeader, tok)
+	if c.Wrapped {
+		req += "Accept: text/html,application/xhtml+xml,*/*;q=0.8\r\n" // a browser navigation: the banner handler looks at the response
+	}
 	if c.Method == "POST" {
 		req += "Content-Length: 3\r\n\r\nabc"
 	} else {
@@ -717,6 +752,9 @@ func cleanup() {
 		h2.stack.Stop()
 		h2.ln.Close()
 	}
+	if e3 != nil {
+		e3.Close()
+	}
 }
 
 func TestPropResponseRoundTripHTTP1(t *testing.T) {
@@ -724,6 +762,28 @@ func TestPropResponseRoundTripHTTP1(t *testing.T) {
 	vh.Rapid(t, vh.Scale(1500, 30000), func(rt *rapid.T) {
 		c := genCase(rt, false)
 		rec1.Check(rt, &c, func() vh.Outcome { return runCase1(rt, &c) })
+	})
+}
+
+// wrapCase restricts a generated response to those the session, shim and banner features have to leave alone.
+func wrapCase(c *RespCase) {
+	c.Wrapped = true
+	var keep []vh.HeaderField
+	for _, f := range c.Fields {
+		if strings.EqualFold(f.Name, "Set-Cookie") || (strings.EqualFold(f.Name, "Content-Type") && strings.Contains(strings.ToLower(f.Value), "html")) {
+			continue
+		}
+		keep = append(keep, f)
+	}
+	c.Fields = keep
+}
+
+func TestPropResponseRoundTripWrapped(t *testing.T) {
+	defer cleanup()
+	vh.Rapid(t, vh.Scale(400, 8000), func(rt *rapid.T) {
+		c := genCase(rt, false)
+		wrapCase(&c)
+		rec3.Check(rt, &c, func() vh.Outcome { return runCase3(rt, &c) })
 	})
 }
 
@@ -738,6 +798,12 @@ func TestPropResponseRoundTripH2C(t *testing.T) {
 func TestReplay(t *testing.T) {
 	defer cleanup()
 	var c RespCase
+	if ok, _ := vh.ReplayCase("http1-wrapped-agent", &c); ok {
+		for i := 0; i < vh.ReplayRuns(); i++ {
+			rec3.Check(t, &c, func() vh.Outcome { return runCase3(t, &c) })
+		}
+		return
+	}
 	if ok, err := vh.ReplayCase("http1", &c); err != nil {
 		t.Fatalf("INFRA: %v", err)
 	} else if ok {
